@@ -66,6 +66,27 @@ def run(rep, idx, tier):
             check_dl(rep, "C12.1", c, f"{cname}: storage' = w_stb ? w_data : hold", whole, dl.HOLD,
                      [("self.port.w_stb", "self.port.w_data")], env)
         else:
+            if whole and not bits:
+                # vectorised update: compare bit k of the whole-register assignment with the per-bit table (k symbolic)
+                kk = ('name', 'k')
+                pseudo = c.bit_view(S, kk) if {d_.domain for d_ in whole} == {"sync"} else None
+                if pseudo is None:
+                    rep.unk("C12.1", c.fi.site, f"{cname} storage update", "storage is updated as a whole and the assigned value cannot be "
+                            "projected onto one bit; the per-bit table cannot be compared")
+                    continue
+                c.w.extra.add(ir.show(c.norm(('sub', S, kk))))
+                env_k = dict(env, i=kk)
+                if kind == "w1c":
+                    table = [("self.set[i]", "1"), ("self.port.w_stb & self.port.w_data[i]", "0")]
+                    what = f"{cname}: bit' = set[i] ? 1 : (w_stb & w_data[i]) ? 0 : hold"
+                else:
+                    table = [("self.port.w_stb & self.port.w_data[i]", "1"), ("self.clear[i]", "0")]
+                    what = f"{cname}: bit' = (w_stb & w_data[i]) ? 1 : clear[i] ? 0 : hold"
+                check_dl(rep, "C12.1", c, what + " (bit view of the whole-register update)", pseudo, dl.HOLD, table, env_k)
+                rep.ok("C12.1", c.fi.site, f"{cname}: bit loop ranges over the storage register", "whole-register assignment: every bit is covered",
+                       nontrivial=False)
+                check_storage_ctor(rep, idx, c, S, cname)
+                continue
             if whole:
                 rep.unk("C12.1", c.fi.site, f"{cname} storage update", "storage is updated as a whole; the per-bit table cannot be compared")
                 continue
